@@ -84,8 +84,8 @@ def verdicts(out: bytes):
             ev.append(("file", m.group(3))); continue
         for key, tag in ((b"Reversed (or previously applied) patch detected!", "reversed"), (b"Unreversed patch detected!", "unreversed"),
                          (b"Skipping patch.", "skipping"), (b"Assuming -R.", "assuming-R"), (b"can't find file to patch", "cant-find"),
-                         (b"Not deleting file", "not-deleting"), (b"refusing to patch", "refusing"), (b"is read-only", "read-only"),
-                         (b"Ignoring the trailing garbage", "garbage")):
+                         (b"Not deleting file", "not-deleting"), (b"is read-only", "read-only"), (b"refusing to patch", "refusing"),
+                         (b"Ignoring the trailing garbage", "garbage"), (b"git binary diffs are not supported", "binary")):
             if key in line:
                 ev.append((tag,))
     return ev
